@@ -470,5 +470,176 @@ theorem discover_depth_le_length (own : List α) (ls : List (Link α F)) (c : α
     (h : get (discoverLinks own ls).depth c = some d) : d ≤ ls.length :=
   Nat.le_trans (bnd_fuel _ _ (bnd_init own ls) c d h) (reachedCnt_le _ _)
 
+/-! ### consequences of invariant + fixpoint -/
+
+/-- A state in which the loop has stopped. -/
+structure Fix (own : List α) (ls : List (Link α F)) (s : DState α F) : Prop where
+  inv : Inv own ls s
+  stable : findStep s.depth ls = none
+
+theorem discover_fix (own : List α) (ls : List (Link α F)) : Fix own ls (discoverLinks own ls) :=
+  ⟨discover_inv own ls, discover_stable own ls⟩
+
+/-- Completeness with depth: whatever has a derivation of depth ≤ `k` is recorded at depth ≤ `k`. -/
+theorem fix_complete {own : List α} {ls : List (Link α F)} {s : DState α F} (hF : Fix own ls s)
+    {k : Nat} {c : α} (h : DerivLe own ls k c) : ∃ d, get s.depth c = some d ∧ d ≤ k := by
+  induction h with
+  | own hc => exact ⟨0, hF.inv.ownZero _ hc, Nat.zero_le _⟩
+  | @link k l hl _ ih =>
+    obtain ⟨m, hm, hmk⟩ := maxDepth?_of_le ih
+    have hc : cost? s.depth l = some (m + 1) := by simp [cost?, hm]
+    obtain ⟨d, hd, hdle⟩ := findStep_none hF.stable l hl _ hc
+    exact ⟨d, hd, by omega⟩
+
+theorem fix_reachable {own : List α} {ls : List (Link α F)} {s : DState α F} (hF : Fix own ls s)
+    (c : α) : (get s.depth c).isSome = true ↔ Reachable own ls c := by
+  constructor
+  · intro h
+    cases hd : get s.depth c with
+    | none => rw [hd] at h; cases h
+    | some d => exact derivLe_reachable (hF.inv.sound c d hd)
+  · intro h
+    obtain ⟨k, hk⟩ := reachable_derivLe h
+    obtain ⟨d, hd, _⟩ := fix_complete hF hk
+    simp [hd]
+
+/-- At the fixpoint the recorded link of a foreign cid has cost exactly the recorded depth. -/
+theorem fix_via {own : List α} {ls : List (Link α F)} {s : DState α F} (hF : Fix own ls s)
+    {c : α} {d : Nat} (hd : get s.depth c = some d) (hc : c ∉ own) :
+    ∃ l m, get s.via c = some l ∧ l ∈ ls ∧ l.to = c ∧ maxDepth? s.depth l.froms = some m ∧ m + 1 = d := by
+  obtain ⟨l, m, hv, hl, hto, hm, hle⟩ := hF.inv.via c d hd hc
+  have hcost : cost? s.depth l = some (m + 1) := by simp [cost?, hm]
+  obtain ⟨d', hd', hle'⟩ := findStep_none hF.stable l hl _ hcost
+  rw [hto, hd] at hd'
+  injection hd' with hd'
+  exact ⟨l, m, hv, hl, hto, hm, by omega⟩
+
+/-! ### layers and `specDepth` -/
+
+theorem mem_layer (own : List α) (ls : List (Link α F)) (k : Nat) (c : α) :
+    c ∈ layer own ls k ↔ DerivLe own ls k c := by
+  induction k generalizing c with
+  | zero =>
+    constructor
+    · intro h; exact DerivLe.own h
+    · intro h; cases h with
+      | own hc => exact hc
+  | succ k ih =>
+    simp only [layer, List.mem_append, List.mem_map, List.mem_filter, List.all_eq_true,
+      decide_eq_true_eq]
+    constructor
+    · rintro (h | ⟨l, ⟨hl, hall⟩, rfl⟩)
+      · exact DerivLe.own h
+      · exact DerivLe.link hl (fun f hf => (ih f).mp (hall f hf))
+    · intro h
+      cases h with
+      | own hc => exact Or.inl hc
+      | link hl hfs => exact Or.inr ⟨_, ⟨hl, fun f hf => (ih f).mpr (hfs f hf)⟩, rfl⟩
+
+theorem firstLayer_some {own : List α} {ls : List (Link α F)} {c : α} (n : Nat) :
+    ∀ k0 k, firstLayer own ls c n k0 = some k →
+      c ∈ layer own ls k ∧ k0 ≤ k ∧ k ≤ k0 + n ∧ ∀ j, k0 ≤ j → j < k → c ∉ layer own ls j := by
+  induction n with
+  | zero =>
+    intro k0 k h
+    simp only [firstLayer] at h
+    split at h
+    · injection h with h; subst h
+      exact ⟨‹_›, Nat.le_refl _, by omega, fun j h1 h2 => by omega⟩
+    · cases h
+  | succ n ih =>
+    intro k0 k h
+    simp only [firstLayer] at h
+    split at h
+    · injection h with h; subst h
+      exact ⟨‹_›, Nat.le_refl _, by omega, fun j h1 h2 => by omega⟩
+    · rename_i hn
+      obtain ⟨h1, h2, h3, h4⟩ := ih _ _ h
+      refine ⟨h1, by omega, by omega, ?_⟩
+      intro j hj hjk
+      by_cases hj0 : j = k0
+      · subst hj0; exact hn
+      · exact h4 j (by omega) hjk
+
+theorem firstLayer_none {own : List α} {ls : List (Link α F)} {c : α} (n : Nat) :
+    ∀ k0, firstLayer own ls c n k0 = none → ∀ j, k0 ≤ j → j ≤ k0 + n → c ∉ layer own ls j := by
+  induction n with
+  | zero =>
+    intro k0 h j h1 h2
+    simp only [firstLayer] at h
+    split at h
+    · cases h
+    · have : j = k0 := by omega
+      subst this; assumption
+  | succ n ih =>
+    intro k0 h j h1 h2
+    simp only [firstLayer] at h
+    split at h
+    · cases h
+    · rename_i hn
+      by_cases hj0 : j = k0
+      · subst hj0; exact hn
+      · exact ih _ h j (by omega) (by omega)
+
+/-- Every reachable cid has a derivation of depth at most the number of links. -/
+theorem reachable_derivLe_length {own : List α} {ls : List (Link α F)} {c : α}
+    (h : Reachable own ls c) : DerivLe own ls ls.length c := by
+  have hF := discover_fix own ls
+  have := (fix_reachable hF c).mpr h
+  cases hd : get (discoverLinks own ls).depth c with
+  | none => rw [hd] at this; cases this
+  | some d =>
+    exact derivLe_mono (hF.inv.sound c d hd) _ (discover_depth_le_length own ls c d hd)
+
+theorem specDepth_some {own : List α} {ls : List (Link α F)} {c : α} {k : Nat}
+    (h : specDepth own ls c = some k) :
+    DerivLe own ls k c ∧ ∀ j, DerivLe own ls j c → k ≤ j := by
+  obtain ⟨h1, _, _, h4⟩ := firstLayer_some _ _ _ h
+  refine ⟨(mem_layer _ _ _ _).mp h1, ?_⟩
+  intro j hj
+  apply Classical.byContradiction
+  intro hlt
+  exact h4 j (Nat.zero_le _) (by omega) ((mem_layer _ _ _ _).mpr hj)
+
+theorem specDepth_none {own : List α} {ls : List (Link α F)} {c : α}
+    (h : specDepth own ls c = none) : ¬ Reachable own ls c := by
+  intro hr
+  have := reachable_derivLe_length hr
+  exact firstLayer_none _ _ h ls.length (Nat.zero_le _) (by omega) ((mem_layer _ _ _ _).mpr this)
+
+theorem specDepth_isSome_iff (own : List α) (ls : List (Link α F)) (c : α) :
+    (specDepth own ls c).isSome = true ↔ Reachable own ls c := by
+  constructor
+  · intro h
+    cases hd : specDepth own ls c with
+    | none => rw [hd] at h; cases h
+    | some k => exact derivLe_reachable (specDepth_some hd).1
+  · intro h
+    cases hd : specDepth own ls c with
+    | none => exact absurd h (specDepth_none hd)
+    | some k => rfl
+
+theorem specDepth_congr {own : List α} {ls ls' : List (Link α F)} (hm : ∀ l, l ∈ ls ↔ l ∈ ls')
+    (c : α) {k : Nat} (h : specDepth own ls c = some k) :
+    DerivLe own ls' k c ∧ ∀ j, DerivLe own ls' j c → k ≤ j := by
+  obtain ⟨h1, h2⟩ := specDepth_some h
+  exact ⟨derivLe_congr hm h1, fun j hj => h2 j (derivLe_congr (fun l => (hm l).symm) hj)⟩
+
+/-- The recorded depth is `specDepth` (for any scan list with the same members). -/
+theorem fix_depth_eq_spec {own : List α} {ls ls' : List (Link α F)} (hm : ∀ l, l ∈ ls ↔ l ∈ ls')
+    {s : DState α F} (hF : Fix own ls' s) (c : α) : get s.depth c = specDepth own ls c := by
+  cases hs : specDepth own ls c with
+  | none =>
+    cases hd : get s.depth c with
+    | none => rfl
+    | some d =>
+      exact absurd (reachable_congr (fun l => (hm l).symm) (derivLe_reachable (hF.inv.sound c d hd)))
+        (specDepth_none hs)
+  | some k =>
+    obtain ⟨h1, h2⟩ := specDepth_congr hm c hs
+    obtain ⟨d, hd, hdk⟩ := fix_complete hF h1
+    have := h2 d (hF.inv.sound c d hd)
+    rw [hd]; congr 1; omega
+
 end
 end GlueVerif.Lemmas.C03
